@@ -1,7 +1,7 @@
 ------------------------------- MODULE JudgeMisc -------------------------------
 (* Named clauses for validation (C08), text formats (C17-C19), artifacts (C20) and the wire format (C07). *)
 EXTENDS Validate, JudgeArtifact, JudgeWire
-MiscEvents == {"validate", "pvalidate", "typed"} \cup TextEvents \cup ArtifactEvents \cup WireEvents
+MiscEvents == {"validate", "pvalidate", "typed"} \cup ExtraEvents \cup TextEvents \cup ArtifactEvents \cup WireEvents
 ClausesValidate(e) ==
   [ no_panic |-> NoPanic(e),
     validate_iff |-> Ok(e) <=> ValidateOK(e.in.inst) ]
@@ -27,6 +27,7 @@ ClausesMisc(e) ==
   CASE e.ev = "validate" -> ClausesValidate(e)
     [] e.ev = "pvalidate" -> ClausesPValidate(e)
     [] e.ev = "typed" -> ClausesTyped(e)
+    [] e.ev \in ExtraEvents -> ClausesExtra(e)
     [] e.ev \in TextEvents -> ClausesText(e)
     [] e.ev = "artifact" -> ClausesArtifact(e)
     [] e.ev \in WireEvents -> ClausesWire(e)
